@@ -1483,7 +1483,8 @@ class Scalar(Qube):
 
     def __round__(self, digits):
 
-        return Scalar(np.round(self._values_, digits), example=self)
+        return Scalar(np.round(self._values_, digits), self._mask_,
+                      example=self)
 
     ############################################################################
     # Exponentiation operator
